@@ -660,6 +660,11 @@ def execute(case, ctx):
     touched = set()
 
     try:
+        _, lend = c04.logical_lines(src)
+    except Exception:
+        lend = {}
+
+    try:
         toks = [t for t in K_pos(src)]
     except Exception:
         toks = []
@@ -691,6 +696,9 @@ def execute(case, ctx):
 
         while lo > 1 and src_lines[lo - 2].rstrip().endswith('\\'):
             lo -= 1  # physical lines joined to the node's first line by a backslash continuation
+
+        # the whole logical line of the node's last line (a following statement joined by '; \\' + newline is re-laid out with it)
+        hi = max(hi, lend.get(hi - 1, hi - 1) + 1)
 
         for ln in range(lo, hi + 1):
             touched.add(ln)
